@@ -26,6 +26,7 @@ ASSUMPTIONS = ["NARROW SLICE: equality of loss values with a float64 reference, 
 TIERS = {"quick": {"runs": 48}, "thorough": {"runs": 1200}}
 REQUIRED = ["terminated_successor_irrelevant", "corrupted_rows_sampled", "control_fault_changes_trace", "batch_order_irrelevant"]
 REQUIRED_QUICK = REQUIRED
+CHUNK = 24  # TrainSim plans per fresh worker process
 SHRINK_LISTS = [["env", "script"]]
 SHRINK_INTS = []
 ADAPTERS = ["dqn", "nature_dqn", "ddqn", "ddqn_per", "ddpg", "td3", "td3_lap", "sac"]
